@@ -74,6 +74,10 @@ class Server(blackbox.Server):
                 raise
 
 
+class Abandon(Exception):
+    pass
+
+
 class Run:
     """State of one history while it is driven."""
 
@@ -90,6 +94,8 @@ class Run:
         self.log = []  # executed statements (for the violation detail)
         self.offset = 0
         self.segs = M.segments(h)
+        self.failed = False  # a read has already disagreed with the reference
+        self.abandoned = False
         if self.db == M.SHARED_DB:
             self.ref.create_db(self.db)
 
@@ -178,6 +184,17 @@ class Driver:
             if missing is None:
                 return
             time.sleep(0.1)
+        if r.failed:
+            # the history has already diverged from the reference (violation recorded): waiting for the reference's
+            # rows is meaningless; the rest of the history is not executed
+            r.abandoned = True
+            self.rep.violation("reference_rows_never_visible_after_divergence", "%s :: barrier :: %s" % (r.key, missing[3]),
+                               "history %s: after an earlier violation in this history, rows of the reference did not become "
+                               "visible within %ds\n  shape %s on %s.%s.%s\n  got: %s\n  statements: %s" % (
+                                   r.key, BARRIER_TIMEOUT, missing[3], missing[0], missing[1], missing[2],
+                                   json.dumps(M.jsonable(missing[4]))[:600],
+                                   " | ".join(x for x in r.log if not x.startswith("write"))), dict(r.h))
+            raise Abandon()
         raise blackbox.ToolError("visibility barrier timed out for history %s: %s" % (r.key, missing))
 
     def containers(self, r):
@@ -303,6 +320,7 @@ class Driver:
             kindv = self.classify(r, label, name, kind, params, db, rp, mst, exp, got)
             if kindv == "dropped_rp_still_returned" and kind in ("series", "tagkeys", "tagvalues"):
                 kindv = self.rp_listing(q, db, kind, exp)
+        r.failed = True
         detail = ("history %s (db %s) checkpoint %s\n  query: %s\n  expected: %s\n  got:      %s\n  statements: %s" % (
             r.key, db, label, q, json.dumps(M.jsonable(exp)), json.dumps(M.jsonable(got)) if ok == "ok" else got,
             " | ".join(x for x in r.log if not x.startswith("write"))))
@@ -365,6 +383,16 @@ class Driver:
         return False
 
     def run_segment(self, r, seg):
+        if r.abandoned:
+            return
+        try:
+            self._run_segment(r, seg)
+        except Abandon:
+            self.rep.count("histories_abandoned_after_violation", 1)
+            self.rep.note("a history that had already produced a violation was not continued after a visibility barrier "
+                          "timed out (its state no longer follows the reference)")
+
+    def _run_segment(self, r, seg):
         for tok in seg:
             if tok[0] == "SETUP":
                 self.do_setup(r)
@@ -522,7 +550,7 @@ class Driver:
         rs = [r for r in self.runs if r.h["restart"]]
         if not rs:
             return
-        late = [r for r in rs if r.h["cont"] == "kill_now"]
+        late = [r for r in rs if r.h["cont"] == "kill_now" and not r.abandoned]
         if late:
             # scheduling device, not an oracle: every drop issued so far is older than the index flush tick when the
             # kill comes, the drops issued now are not
@@ -536,8 +564,13 @@ class Driver:
             checklib.log("C13 server %s restarted (%s): %d histories" % (self.srv.name, label, len(rs)))
 
             def after(r, label=label):
-                self.visible(r, self.containers(r))
-                self.do_check(r, label)
+                if r.abandoned:
+                    return
+                try:
+                    self.visible(r, self.containers(r))
+                    self.do_check(r, label)
+                except Abandon:
+                    self.rep.count("histories_abandoned_after_violation", 1)
             self.pool(after, rs)
 
 
@@ -659,6 +692,8 @@ def run(tier, replay):
             t.join()
         if errs:
             checklib.tool_error("; ".join(errs))
+        if rep.d["counters"].get("histories_abandoned_after_violation"):
+            rep.d["exhaustive"] = False
         with open(os.path.join(checklib.build_dir(CID), "violations-%s.json" % tier), "w") as fh:
             json.dump(rep.all, fh, indent=1)
         return checklib.finish(CID, tier, LEVEL, RULE, [rep.d], t0, ASSUMPTIONS)
